@@ -315,6 +315,15 @@ func TestVerifC05(t *testing.T) {
 			Part string   `json:"part"`
 			Hist []string `json:"hist"`
 		}
+		if _, err := vout.LoadReplay(&rz); err == nil && rz.Part == "H" {
+			img := c05Image(t)
+			if step, sig, msg, to, _ := c05hRun(t, img, rz.Hist, res); sig != "" {
+				res.Violate("c05:ha:"+sig, msg, rz)
+			} else {
+				t.Logf("replay: not reproduced (step %d timeout=%v %s)", step, to, msg)
+			}
+			return
+		}
 		if _, err := vout.LoadReplay(&rz); err == nil && rz.Part == "Z" {
 			img, shares := c05zImage(t)
 			if sig, msg, _ := c05zRun(t, img, shares, rz.Hist, res); sig != "" {
@@ -392,6 +401,10 @@ func TestVerifC05(t *testing.T) {
 	// ---- Z: seal / unseal transitions of a namespace with its own seal (c05z_test.go)
 	if only == "" || only == "Z" {
 		c05zPart(t, res, &count)
+	}
+	// ---- H: leadership changes of a real HA pair (c05h_test.go)
+	if only == "" || only == "H" {
+		c05hPart(t, res, &count)
 	}
 	// ---- K: crash inside renew / revoke of a secret lease and of a token
 	if only == "" || only == "K" {
